@@ -1430,7 +1430,7 @@ func recordTape(b *builder, vn, workload string, idx uint64) core.Rec {
 // coldEnv: workers of the cold-start workload must not run harness initialisers
 // that call into the library.
 func coldEnv(workload string) []string {
-	if workload == "C18D" || workload == "C13D" {
+	if workload == "C18D" || workload == "C13D" || workload == "C06D" {
 		return []string{"VERIF_COLD=1"}
 	}
 	return nil
